@@ -19,7 +19,7 @@ THEOREMS = ['C09_diag_cube_is_triples', 'C09_cbrt_laws', 'C09_cbrt_mul', 'C09_cc
 RULE = ('all undirected 0/1 graphs n<=4 (quick) / n<=5 (thorough) and all digraphs n<=3 / n<=4 with empty diagonal; '
         'all weighted graphs n=3 (und. 4 weight values; directed 3 values) and n=4 (und., 3 values; every 5th in quick), random weighted graphs n<=8 (undirected, directed, signed) with weights m^3/512, m in 1..8, so that the cube root is exact; '
         'NEGATIVE weights fed straight into clustering_coef_wu/wd and transitivity_wu/wd (random + every sign pattern on K3 and K4-e), '
-        'tiny cube weights (m/N)^3 with N up to 50 (triangle intensities far below 1e-4), weights that are NOT cubes (float oracle with np.cbrt, 1e-9, no model run); '
+        'tiny cube weights (m/N)^3 with N up to 50 (triangle intensities far below 1e-4), MIXED magnitudes in one matrix (cubes 2^-30, 27*2^-30, 2^-39 next to m^3/512; non-cube 3*2^-32 next to k/64 with the float oracle; every graph on 3 nodes over {0, 2^-30, 1}), weights that are NOT cubes (float oracle with np.cbrt, 1e-9, no model run); '
         'bct.utils.cuberoot itself on +-m^3/N^3; families without triangles (paths, stars, even rings, bipartite, trees), graphs with isolated nodes, complete graphs, '
         'integer-dtype arrays (per-node routines, the four transitivities, wu_sign on -1/0/1), the empty graph n=0, coef_type spellings '
         "'Zhang' / 'Costantini' and unknown strings (fall-through: None); non-trivial = at least one node lies on a triangle; distinct by hash of (function, matrix)")
@@ -61,6 +61,19 @@ def tiny_cube_w(r):
     """perfect cubes far below 1/512 (m/N)^3, N up to 50: triangles whose intensity is tiny but not zero"""
     N = int(r.choice([10, 20, 50])); m = int(r.randint(1, 4))
     return F(m ** 3, N ** 3)
+
+
+TINY_CUBES = [F(1, 2 ** 30), F(27, 2 ** 30), F(1, 2 ** 39)]        # (2^-10)^3, (3*2^-10)^3, (2^-13)^3: all far below 1e-8, exact in binary64
+
+
+def mixed_cube_w(r):
+    """mixed magnitudes in ONE matrix: links weaker than 1e-8 next to ordinary ones (all perfect cubes: exact model)"""
+    return TINY_CUBES[int(r.randint(0, 3))] if r.rand() < 0.4 else cube_w(r)
+
+
+def mixed_noncube_w(r):
+    """the same with weights that are not cubes (float oracle only): 3*2^-32, 5*2^-41 next to k/64"""
+    return [F(3, 2 ** 32), F(5, 2 ** 41), F(1, 2 ** 27)][int(r.randint(0, 3))] if r.rand() < 0.4 else F(int(r.randint(1, 64)), 64)
 
 
 def noncube_w(r):
@@ -348,7 +361,7 @@ class Bag:
         if family:
             ctx.count('family:' + family)
         try:
-            C = call(getattr(bct, fn), npm(W, dtype))
+            C = call(getattr(bct, fn), npm(W, dtype)); tie_variants(case)    # (input-representation layer: the model comparison comes later)
         except Exception as e:
             ctx.fail(fn + (':int_dtype' if dtype is not float else ':raises'), 'raised %r' % e, case)
             return
@@ -371,7 +384,7 @@ class Bag:
             ctx.count('family:' + family)
         try:
             with np.errstate(all='ignore'):
-                R = call(bct.clustering_coef_wu_sign, npm(W, dtype), name)   # works on a copy of the argument
+                R = call(bct.clustering_coef_wu_sign, npm(W, dtype), name); tie_variants(case)   # works on a copy of the argument
         except Exception as e:
             ctx.fail(fn + ':raises', 'raised %r' % e, case)
             return
@@ -408,7 +421,7 @@ class Bag:
             ctx.count('family:' + family)
         try:
             with np.errstate(all='ignore'):
-                T = call(getattr(bct, fn), npm(W, dtype))
+                T = call(getattr(bct, fn), npm(W, dtype)); tie_variants(case)
         except Exception as e:
             ctx.fail(fn + ':raises', 'raised %r' % e, case)
             return
@@ -431,7 +444,7 @@ class Bag:
         oc, ot = (fo_dir if directed else fo_und)(W)
         try:
             with np.errstate(all='ignore'):
-                C = np.asarray(call(getattr(bct, fnc), npm(W)), dtype=float); T = float(call(getattr(bct, fnt), npm(W)))
+                C = np.asarray(call(getattr(bct, fnc), npm(W)), dtype=float); tie_variants(case); T = float(call(getattr(bct, fnt), npm(W))); tie_variants(case)
         except Exception as e:
             ctx.fail(fnc + ':raises', 'raised %r' % e, case); return
         ok = len(C) == len(oc) and all(np.isfinite(g) and abs(g - e) <= TOL * max(1.0, abs(e)) for e, g in zip(oc, C))
@@ -593,6 +606,32 @@ def run(ctx):
             B.sign(flip_signs(r, Wt, 0.4, True), 0, 'default', family='tiny_weights')
         B.float_only(rand_und(r, n, dens, noncube_w), False, 'noncube_weights')
         B.float_only(flip_signs(r, rand_dir(r, n, dens * 0.7, noncube_w), 0.3, False), True, 'noncube_weights')
+    # ---- mixed magnitudes: nonzero weights below 1e-8 next to ordinary ones in the same matrix (a link is a link however weak:
+    #      it counts in K and in the adjacency of wd exactly like a strong one), every weighted routine
+    for t in range(ctx.scale(30, 250)):
+        n = int(r.randint(3, 8)); dens = float(r.choice([0.5, 0.8, 1.0]))
+        Wm = rand_und(r, n, dens, mixed_cube_w)
+        B.und_weighted(Wm, family='mixed_magnitude'); B.dir_weighted(Wm, family='mixed_magnitude')
+        B.dir_weighted(rand_dir(r, n, dens * 0.7, mixed_cube_w), family='mixed_magnitude')
+        Wms = flip_signs(r, Wm, 0.4, True)
+        B.und_weighted(Wms, family='mixed_magnitude_signed', signed=True)
+        for ty, name in ((0, 'default'), (1, 'zhang'), (2, 'costantini')):
+            B.sign(Wms, ty, name, family='mixed_magnitude_signed')
+        B.float_only(rand_und(r, n, dens, mixed_noncube_w), False, 'mixed_magnitude_noncube')
+        B.float_only(rand_dir(r, n, dens * 0.7, mixed_noncube_w), True, 'mixed_magnitude_noncube')
+    # the smallest such graphs exhaustively: every undirected weighted graph on 3 nodes (and a slice on 4) over {0, 2^-30, 1}
+    mv = [F(0), F(1, 2 ** 30), F(1)]
+    for n, stepm in ((3, 1), (4, 1 if ctx.thorough else 4)):
+        prs = [(i, j) for i in range(n) for j in range(i + 1, n)]
+        for t, ws in enumerate(itertools.product(mv, repeat=len(prs))):
+            if t % stepm:
+                continue
+            W = [[F(0)] * n for _ in range(n)]
+            for (i, j), w in zip(prs, ws):
+                W[i][j] = W[j][i] = w
+            B.und_weighted(W, family='mixed_magnitude_exhaustive'); B.dir_weighted(W, family='mixed_magnitude_exhaustive')
+            if t % 3 == 0:
+                B.sign(W, 0, 'default', family='mixed_magnitude_exhaustive'); B.sign(W, 1, 'zhang', family='mixed_magnitude_exhaustive')
     # ---- the smallest signed triangles exhaustively: every sign pattern on K3 and K4 minus an edge
     for n, edges in ((3, [(0, 1), (1, 2), (0, 2)]), (4, [(0, 1), (1, 2), (0, 2), (2, 3), (1, 3)])):
         for sg in itertools.product((1, -1), repeat=len(edges)):
